@@ -106,6 +106,7 @@ def _judge(res, desc, ff, ph, pka, s, r, base_missing, ctxmsg):
     A = e2e.analyse(desc, ff, [], s, r)
     warned = " ".join(m for lvl, _n, m in r.warnings)
     wanted_any = False
+    bridged = e2e.ss_from_records(s)  # cysteines in a disulfide bridge are not titrated
     for ci, ch in enumerate(desc["chains"]):
         n = len(ch["seq"])
         for i, nm in enumerate(ch["seq"]):
@@ -118,8 +119,10 @@ def _judge(res, desc, ff, ph, pka, s, r, base_missing, ctxmsg):
             if newly:
                 res.bad("C06:dropped-by-titration", f"{ff} pH {ph}: {nm} {key} has unassigned atoms {newly[:4]} that the "
                         f"run without titration does not have {ctxmsg}")  # fmt: skip
-            if nm not in TIT or key not in pka:
+            if nm not in TIT or key not in pka or (ci, i) in bridged:
                 continue
+            if nm == "CYS" and any(k[0] == ci for k in bridged) is False and len(A.inp) and _near_sulfur(A, ci, i):
+                continue  # a second sulfur within the bonding limit: disulfide rules (C13) decide
             var, var_prot = PROT[nm]
             prot_expected = ph < pka[key]
             want_variant = prot_expected == var_prot
@@ -147,6 +150,18 @@ def _judge(res, desc, ff, ph, pka, s, r, base_missing, ctxmsg):
                     res.bad("C06:no-warning", f"{ff} {posn} {nm}: {var} is not supported and was skipped, but no warning "
                             f"names {tag!r} {ctxmsg}")  # fmt: skip
     return A, wanted_any
+
+
+def _near_sulfur(A, ci, i):
+    import numpy as np
+
+    me = A.inp.get(("chain", ci, i), {}).get("SG")
+    if me is None:
+        return False
+    for g, names in A.inp.items():
+        if g != ("chain", ci, i) and "SG" in names and float(np.linalg.norm(names["SG"] - me)) < 2.5:
+            return True
+    return False
 
 
 def check_table(case):
